@@ -42,3 +42,20 @@ impl LuaIndex for LuaMetatableIndex {
         self.metatables.clear();
     }
 }
+
+#[cfg(feature = "verif-hooks")]
+impl LuaMetatableIndex {
+    pub(crate) fn verif_sizes(&self) -> Vec<(&'static str, usize)> {
+        vec![("metatables", self.metatables.len())]
+    }
+
+    pub(crate) fn verif_file_refs(&self, file_id: FileId) -> Vec<(&'static str, usize)> {
+        vec![(
+            "metatables",
+            self.metatables
+                .iter()
+                .filter(|(k, v)| k.file_id == file_id || v.file_id == file_id)
+                .count(),
+        )]
+    }
+}
